@@ -123,13 +123,13 @@ def check(ctx: Ctx) -> None:
             asg = ",".join(f"{k}={'T' if v else 'F'}" for k, v in fcs.items())
             ok = len(outs) == 1 and outs[0][0] == "ret" and outs[0][1] is want and ((outs[0][2] is not None) == (not want))
             ctx.ob("C08.expr", f"{text}@{asg}", ok, f"{text} under {asg} gives {outs}; Boolean value {want}, message iff unfulfilled", file=FILE)
-    report_sweep(ctx, ("C08.tree",), FILE)
+    ctx.soft(lambda: report_sweep(ctx, ("C08.tree",), FILE))
     from ..purity import check_path
 
-    check_path(ctx, "C08.state", ["ahbicht.expressions.format_constraint_expression_evaluation.format_constraint_evaluation"],
+    ctx.soft(lambda: check_path(ctx, "C08.state", ["ahbicht.expressions.format_constraint_expression_evaluation.format_constraint_evaluation"],
                "the value of a format-constraint expression must depend on this evaluation's constraints only",
-               extra_classes=["ahbicht.content_evaluation.fc_evaluators.FcEvaluator"])
+               extra_classes=["ahbicht.content_evaluation.fc_evaluators.FcEvaluator"]))
     from ..purity import check_models_and_transformers
 
-    check_models_and_transformers(ctx, "C08.state", "format constraint evaluation must not depend on earlier evaluations")
+    ctx.soft(lambda: check_models_and_transformers(ctx, "C08.state", "format constraint evaluation must not depend on earlier evaluations"))
     ctx.assume("precedence of the re-parse is the documented one (C01); parse functions are summarised by the reference parser")
